@@ -49,6 +49,27 @@ def run(ctx):
         jobs.append((kind, progs, ctx.seed * 1000003 + i, os.path.join(ctx.scratch, 'mv-%d' % i),
                      {'stick': (0.3, 0.6, 0.85)[i % 3]}))
     res = par.pmap(mvcc.scenario, jobs, chunksize=8)
+    # spec -> code: TLC behaviours of ZMvcc as directed schedules
+    from ..drivers import mvcc_directed
+    from .. import tlaparse
+    import glob
+    simdir = os.path.join(ctx.scratch, 'mvsim')
+    os.makedirs(os.path.join(simdir, 'out'))
+    scfg = os.path.join(simdir, 'sim.cfg')
+    tlc.write_cfg(scfg, constants={'Conn': '{"c1", "c2"}', 'Oid': '{"x", "y"}', 'MaxCommits': 4, 'MaxCloses': 2,
+                                   'MutIgnoreILtid': 'FALSE', 'UndoAgents': '{}', 'WithRC': 'FALSE'})
+    nd = 150 if q else 5000
+    rs = tlc.run('ZMvcc', scfg, workdir=simdir, simulate='file=%s/out/tr,num=%d' % (simdir, nd), depth=45, seed=ctx.seed + 51,
+                 workers=1, timeout=900)
+    ctx.model['runs'].append(dict(rs.summary(), name='simulate-ZMvcc'))
+    djobs = []
+    for i, f in enumerate(sorted(glob.glob(os.path.join(simdir, 'out', 'tr_*')))):
+        djobs.append((('file', 'mapping')[i % 2], tlaparse.parse_simulate_file(f), os.path.join(ctx.scratch, 'md-%d' % i)))
+    dres = par.pmap(mvcc_directed.scenario, djobs, chunksize=4)
+    directed = {'behaviours': len(dres), 'expected_events': sum(r['expected'] for r in dres),
+                'matched_events': sum(r['matched'] for r in dres),
+                'fully_followed': sum(1 for r in dres if r['matched'] == r['expected'])}
+    res += dres
     traces = [r['trace'] for r in res]
     accepted, rejected, tr = tlc.validate_traces('ZMvccTrace', traces, os.path.join(ctx.scratch, 'tv'), constants=CONSTS,
                                                  timeout=1800)
@@ -79,6 +100,7 @@ def run(ctx):
         'evaluations': len(res),
         'distinct_nontrivial': min(nontrivial, len(distinct)),
         'distinct_traces': len(distinct),
+        'directed_schedules': directed,
         'traces_validated_against_impl': len(traces),
         'trace_events': sum(len(t) for t in traces),
         'rule': 'seeded multi-connection programs (2-3 threads; per transaction: read both / read one / write x / write y / '
@@ -89,7 +111,9 @@ def run(ctx):
                 'PollApply with snapshot and cache projection, Read with serial, Write, BeginVote outcome, FinishStart, '
                 'Deliver per instance, Publish, AbortTxn) with tids rank-normalised; TLC validates every trace against '
                 'ZMvccTrace (every step must be a ZMvcc step with the logged values) and evaluates CacheCoherent, Fresh, '
-                'NotFromTheFuture, VotedOnCurrent, LockDiscipline in every state; non-trivial = at least one commit and three '
+                'NotFromTheFuture, VotedOnCurrent, LockDiscipline in every state; in addition TLC -simulate behaviours of ZMvcc are '
+                'replayed as DIRECTED schedules (one thread per model connection, the director runs the thread that owns the '
+                'next expected event) and validated the same way; non-trivial = at least one commit and three '
                 'thread switches',
         'samples': [traces[0][:30]] if traces else [],
         'exhaustive': False,
